@@ -44,6 +44,8 @@ RULE = (
 ASSUMPTIONS = [
     "one read-only fixture database per shard process; no case commits (sessions are rolled back), so the DB truth is the fixture",
     "unpickled Rows support string keys only (documented: 'lookup by ColumnElement is unsupported')",
+    "pickle protocols 0 and 1 are outside the domain: Python refuses to pickle the __slots__ class PendingCollection without __getstate__ (confirmed on the unchanged tree), so an object with queued collection mutations only pickles with protocol >= 2",
+    "orm_twin compares flush SQL as a multiset of (statement, parameter set): INSERT order of unrelated pending objects follows the order they entered the session",
     "a pending (never flushed) object unpickles as transient; persistent/detached unpickle as detached (objects are not re-attached by pickle)",
     "ext.serializer identifiers: table / column keys containing ':' are excluded (known finding, pinned replay)",
     "arithmetic composition on a deserialised non-Column expression whose comparator was memoized before pickling is excluded (known finding shared with C03, pinned replay)",
@@ -80,7 +82,8 @@ def _val(v):
         return [_val(x) for x in v]
     if isinstance(v, (M.User, M.Address, M.Keyword)):
         d = v.__dict__
-        return [type(v).__name__, d.get("id"), d.get("email") if isinstance(v, M.Address) else d.get("word") if isinstance(v, M.Keyword) else d.get("name")]
+        k = inspect(v).key
+        return [type(v).__name__, d.get("id") if d.get("id") is not None or k is None else k[1][0], d.get("email") if isinstance(v, M.Address) else d.get("word") if isinstance(v, M.Keyword) else d.get("name")]
     return v
 
 
@@ -260,6 +263,207 @@ def _orm_cases(draw):
         "opts": draw(st.lists(st.sampled_from(_OPTS[:2] + ["joined_keywords"]), max_size=3, unique=True)) + draw(st.sampled_from([[], ["selectin_addresses"], ["lazy_addresses"], ["selectin_addr_user"], ["defer_addr_email"], ["defer_addr_email"]])),
         "pre": pre,
         "target": draw(st.sampled_from(["user", "user", "address", "list"])),
+    }
+
+
+# ------------------------------------------------------------------ orm_twin: differential against the never-pickled twin
+_ATTRS = ["name", "nick", "bio", "addresses", "keywords"]
+
+
+def _pm_summary(state):
+    """queued ("pending") collection mutations on unloaded collections: {key: (added, removed)}"""
+    out = {}
+    for k, pc in getattr(state, "_pending_mutations", {}).items():
+        out[k] = [sorted(_val(x)[1:] for x in pc.added_items), sorted(_val(x)[1:] for x in pc.deleted_items)]
+    return out
+
+
+def _state_fields(o):
+    """every InstanceState field that __getstate__ carries, in a comparable form"""
+    st_ = inspect(o)
+    lp = st_.load_path
+    return {
+        "dict": {k: _val(v) for k, v in o.__dict__.items() if not k.startswith("_sa")},
+        "modified": st_.modified,
+        "expired": st_.expired,
+        "callables": sorted(st_.callables),
+        "key": None if st_.key is None else [st_.key[0].__name__, list(st_.key[1]), st_.key[2]],
+        "load_options": [str(getattr(x, "path", x)) for x in st_.load_options],
+        "load_path": None if not lp else [[getattr(a, "__name__", None) or str(a) for a in pair] for pair in lp.serialize()],
+        "expired_attributes": sorted(st_.expired_attributes),
+        "committed_state": {k: _hist(st_.attrs[k].history) for k in st_.committed_state},
+        "pending_mutations": _pm_summary(st_),
+        "unloaded": sorted(st_.unloaded),
+    }
+
+
+def _twin_build(case, sess):
+    """deterministic construction of the object graph; returns (user, [auxiliary objects that must travel with it])"""
+    uid = case["uid"]
+    opts = [{"defer_name": defer(M.User.name), "undefer_bio": undefer(M.User.bio), "joined_keywords": joinedload(M.User.keywords),
+             "lazy_addresses": lazyload(M.User.addresses), "defer_addr_email": defaultload(M.User.addresses).defer(M.Address.email)}[o] for o in case["opts"]]
+    u = sess.execute(select(M.User).options(*opts).where(M.User.id == uid)).unique().scalar_one()
+    aux = []
+    for kind, arg in case["pre"]:
+        if kind == "expire_attr":
+            sess.expire(u, [arg])
+        elif kind == "expire_all":
+            sess.expire(u)
+        elif kind == "touch":
+            getattr(u, arg)
+        elif kind == "set":
+            setattr(u, arg[0], arg[1])
+        elif kind == "backref_append":
+            # many-to-one side set while User.addresses is (possibly) unloaded: queued on the parent as a pending append
+            aux.append(M.Address(id=3000 + arg, email=f"queued{arg}", user=u))
+        elif kind == "backref_remove":
+            ids = _truth(uid)["addresses"]
+            if ids:
+                a = sess.get(M.Address, ids[arg % len(ids)])
+                a.user = None
+                aux.append(a)
+        elif kind == "backref_move":
+            other = 4 if uid != 4 else 3
+            a = sess.get(M.Address, _truth(other)["addresses"][arg % len(_truth(other)["addresses"])])
+            a.user = u
+            aux.append(a)
+        elif kind == "coll_append":
+            aux.append(M.Address(id=3100 + arg, email=f"direct{arg}"))  # travels with the user: a later expire may drop the only reference from u
+            u.addresses.append(aux[-1])
+        elif kind == "set_keywords":
+            u.keywords = list(u.keywords)[:arg]
+    det = case["detach"]
+    if det == "expunge":
+        sess.expunge(u)
+    elif det == "expunge_all":
+        sess.expunge_all()
+    elif det == "close":
+        sess.close()
+    return u, aux
+
+
+def _twin_observe(eng, sess, u, aux, reattach):
+    """behaviour of the object once it is (re-)attached: lazy loads, history, flush SQL"""
+    from sqlalchemy.orm import object_session
+
+    out = {}
+    if reattach:
+        for o in [u] + aux:
+            if object_session(o) is None:
+                sess.add(o)
+    for attr in _ATTRS:
+        try:
+            out["value:" + attr] = _val(getattr(u, attr))
+        except Exception as e:  # noqa: the exception type is the observation; both sides must agree
+            out["value:" + attr] = ["exc", type(e).__name__]
+    st_ = inspect(u)
+    for attr in _ATTRS:
+        out["history:" + attr] = _hist(st_.attrs[attr].history)
+    out["dirty"] = u in sess.dirty
+    cap = sautil.Capture(eng)
+    try:
+        try:
+            sess.flush()
+            out["flush"] = "ok"
+        except Exception as e:  # noqa
+            out["flush"] = ["exc", type(e).__name__]
+        # compared as a multiset of (statement, one parameter set): the INSERT order of unrelated pending objects follows the order in
+        # which they entered the session, which is a property of the harness, not of pickling
+        out["flush_sql"] = sorted([stmt, repr(p_)] for stmt, params, _many in cap.rows for p_ in (params if isinstance(params, list) else [params]))
+    finally:
+        cap.close()
+    out["after_flush:addresses"] = _val(list(u.addresses)) if out["flush"] == "ok" else None
+    return out
+
+
+def check_orm_twin(case, ctx):
+    eng = _fixture(ctx)
+    proto = case["proto"]
+    classes = {f"proto{proto}", "detach:" + case["detach"]} | {k for k, _ in case["pre"]}
+    # --- the twin: same construction, never pickled
+    sa = Session(eng, autoflush=False)
+    try:
+        tu, taux = _twin_build(case, sa)
+        twin_fields = _state_fields(tu)
+        if case["detach"] == "attached":
+            twin_obs = _twin_observe(eng, sa, tu, taux, reattach=True)  # adds only what is in no session (the new Address objects)
+        else:
+            sa.expunge_all()  # detach WITHOUT expiring (a rollback would expire what is still attached, which pickling does not do)
+            sa.rollback()
+            sa.close()
+            sa = Session(eng, autoflush=False)
+            twin_obs = _twin_observe(eng, sa, tu, taux, reattach=True)
+    finally:
+        sa.rollback()
+        sa.close()
+    has_pm = bool(twin_fields["pending_mutations"])
+    if has_pm:
+        classes.add("pending-collection-mutations")
+        pm = twin_fields["pending_mutations"].get("addresses", [[], []])
+        if pm[0]:
+            classes.add("queued-append")
+        if pm[1]:
+            classes.add("queued-remove")
+    if twin_fields["load_options"]:
+        classes.add("instance-load-options")
+    if twin_fields["committed_state"]:
+        classes.add("pending-history")
+    nontrivial = has_pm or bool(twin_fields["committed_state"]) or bool(twin_fields["expired_attributes"] and twin_fields["load_options"])
+    ctx.note(case, nontrivial, classes=classes)
+
+    # --- the pickled copy
+    sb = Session(eng, autoflush=False)
+    sc = None
+    try:
+        u, aux = _twin_build(case, sb)
+        before = _state_fields(u)
+        if before != twin_fields:
+            raise Violation("C51/orm_twin/harness/construction-not-deterministic", f"twin {twin_fields} != second build {before}")
+        blob = pickle.dumps((u, aux), proto)
+        sb.rollback()
+        sb.close()
+        u2, aux2 = pickle.loads(blob)
+        after = _state_fields(u2)
+        for k in before:
+            if before[k] != after[k]:
+                raise Violation(f"C51/orm_twin/state/{k}", f"InstanceState field {k!r} before pickle {before[k]!r} != after unpickle {after[k]!r}",
+                                observed=after[k], expected=before[k])
+        sc = Session(eng, autoflush=False)
+        obs = _twin_observe(eng, sc, u2, aux2, reattach=True)
+        for k in twin_obs:
+            if twin_obs[k] != obs[k]:
+                what = k.split(":")[0]
+                raise Violation(f"C51/orm_twin/behaviour/{what}/{k.split(':')[1] if ':' in k else 'all'}",
+                                f"{k}: never-pickled twin gave {twin_obs[k]!r}, unpickled + re-attached copy gave {obs[k]!r} (queued mutations {before['pending_mutations']})",
+                                observed=obs[k], expected=twin_obs[k])
+    finally:
+        sb.rollback()
+        sb.close()
+        if sc is not None:
+            sc.rollback()
+            sc.close()
+
+
+@st.composite
+def _orm_twin_cases(draw):
+    pre = []
+    for _ in range(draw(st.integers(1, 5))):
+        k = draw(st.sampled_from(["expire_attr", "expire_all", "touch", "set", "backref_append", "backref_append", "backref_remove", "backref_remove", "backref_move",
+                                   "coll_append", "set_keywords"]))
+        if k == "expire_attr":
+            arg = draw(st.sampled_from(["name", "nick", "bio", "addresses", "addresses", "keywords"]))
+        elif k == "touch":
+            arg = draw(st.sampled_from(["keywords", "bio", "name", "addresses"]))
+        elif k == "set":
+            arg = [draw(st.sampled_from(["name", "nick", "bio"])), draw(st.sampled_from(["zz", None, "user3"]))]
+        else:
+            arg = draw(st.integers(0, 3))
+        pre.append([k, arg])
+    return {
+        "uid": draw(st.integers(2, 4)), "proto": draw(st.integers(2, 5)),
+        "opts": draw(st.lists(st.sampled_from(["defer_name", "undefer_bio", "joined_keywords", "lazy_addresses", "defer_addr_email"]), max_size=2, unique=True).filter(
+            lambda o: not ("lazy_addresses" in o and "defer_addr_email" in o))),
+        "pre": pre, "detach": draw(st.sampled_from(["attached", "expunge", "expunge_all", "expunge_all", "close"])),
     }
 
 
@@ -650,6 +854,7 @@ def _serializer_cases(draw):
 def subs(tier):
     return [
         Generated("orm", check_orm, strategy=_orm_cases(), quick=300, thorough=20000),
+        Generated("orm_twin", check_orm_twin, strategy=_orm_twin_cases(), quick=300, thorough=20000),
         Generated("rows", check_rows, strategy=_rows_cases, quick=100, thorough=4000),
         Generated("metadata", check_metadata, strategy=_metadata_cases(), quick=100, thorough=8000),
         Generated("serializer", check_serializer, strategy=_serializer_cases(), quick=200, thorough=12000),
